@@ -102,7 +102,7 @@ def stepC31 (_ : Unit) (line : String) : Unit × String :=
   | "wrappers" =>
     if !declared path then "none" else
     " ".intercalate ((wrappersOf path).map (fun e => str e.key ++ ":" ++ ",".intercalate (e.methods.map str)))
-  | "interp" =>
+  | "interp" | "named" | "dot" =>
     if !declared path then "none" else s!"ok {(bindsOf path).length} {(typesOf path).length}"
   | "proxy" =>
     match arg.splitOn " " with
@@ -113,7 +113,7 @@ def stepC31 (_ : Unit) (line : String) : Unit × String :=
         str d.name ++ "|" ++ ",".intercalate (d.fields.map showField) ++ "|" ++
           " ".intercalate ((sortByKey (·.name) d.methods).map showMethod)
     | _ => "bad-op"
-  | "xpkg" | "xbinds" | "xtypes" | "xproxies" | "xuntyped" | "xwrappers" | "xinterp" | "xproxy" => "unanchored"
+  | "xpkg" | "xbinds" | "xtypes" | "xproxies" | "xuntyped" | "xwrappers" | "xinterp" | "xnamed" | "xdot" | "xproxy" => "unanchored"
   | _ => "bad-op")
 
 def main : IO Unit := run () stepC31
